@@ -969,7 +969,7 @@ mod pool {
         with_first_packet::<true, _>(check_key::<true>);
     }
 
-    /// The stream key the pool stores for the first fragment of a datagram (hook `verif_active_ids`): every
+    /// The stream key the pool stores for the first fragment of a datagram (hook `verif_first_active_id`): every
     /// component - VLAN ids, source, destination, identification, payload protocol, channel - comes from the
     /// right header field. Two datagrams are the same stream iff these components are equal, so this decides
     /// "streams never mix" at the key level for every packet.
@@ -983,9 +983,8 @@ mod pool {
         seed(&mut pool);
         let r = pool.process_sliced_packet(sliced, (), s.chan);
         assert!(matches!(r, Ok(None)));
-        let ids = pool.verif_active_ids();
-        assert!(ids.len() == 1, "exactly one stream is being reconstructed");
-        let id = &ids[0];
+        assert!(pool.verif_counts().0 == 1, "exactly one stream is being reconstructed");
+        let id = pool.verif_first_active_id().expect("one active stream");
         witness!(s.ntags == 2, "double_tagged_fragment");
         assert!(id.vlan_ids.len() == s.ntags as usize, "key: number of VLAN ids");
         assert!(s.ntags < 1 || id.vlan_ids[0].value() == s.vid[0], "key: outer VLAN id");
@@ -1008,7 +1007,6 @@ mod pool {
                 assert!(*identification == s.ident, "key: IPv6 identification");
             }
         }
-        core::mem::forget(ids);
         core::mem::forget(r);
         core::mem::forget(pool);
     }
